@@ -97,8 +97,38 @@ func checkC28(c *Ctx, r *Report) {
 			}
 		}
 	}
+	// the same record written with strings.Join([]string{…}, ":"): modelled as a
+	// format of %s fields
+	var joinOps []ssa.Value
 	if ser == nil {
-		r.Unresolved(rule, "no fmt.Sprintf of core.PeerInfo fields with a ':'-separated constant format in "+pkg)
+		for _, fn := range c.FuncsIn(pkg) {
+			if c.isFixture(fn) {
+				continue
+			}
+			for _, cs := range callsInNamed(fn, "strings.Join") {
+				sep, ok := constString(cs.Instr.Common().Args[1])
+				if !ok || sep != ":" {
+					continue
+				}
+				elems := varargElems(cs.Instr.Common().Args[0])
+				usesPeer := false
+				for _, o := range elems {
+					if mentions(o, func(v ssa.Value) bool {
+						n, ok := fieldName(v)
+						return ok && strings.HasPrefix(n, "core.PeerInfo.")
+					}, 6) {
+						usesPeer = true
+					}
+				}
+				if usesPeer && len(elems) >= 3 {
+					ser, serFn, joinOps = cs.Instr, fn, elems
+					format = strings.TrimSuffix(strings.Repeat("%s:", len(elems)), ":")
+				}
+			}
+		}
+	}
+	if ser == nil {
+		r.Unresolved(rule, "no fmt.Sprintf / strings.Join of core.PeerInfo fields with ':' as the constant separator in "+pkg)
 		return
 	}
 	var parser *ssa.Function
@@ -129,6 +159,9 @@ func checkC28(c *Ctx, r *Report) {
 	}
 	fields := strings.Split(format, ":")
 	ops := sprintfOperands(ser)
+	if joinOps != nil {
+		ops = joinOps
+	}
 	if len(ops) != len(verbs) || len(fields) != len(verbs) {
 		r.Undecided(rule, serFn, "format", ser, fmt.Sprintf("format %q: %d verbs, %d operands, %d fields", format, len(verbs), len(ops), len(fields)))
 		return
@@ -142,20 +175,34 @@ func checkC28(c *Ctx, r *Report) {
 			if mentions(ops[i], func(v ssa.Value) bool { return isCallTo(v, sepFreeCalls...) }, 5) {
 				continue
 			}
+			// a value that is one of a few string constants without the separator
+			if allSepFreeConsts(ops[i]) {
+				continue
+			}
 			free = append(free, i)
 		default:
 			free = append(free, i)
 		}
 	}
-	nSplit := len(callsInNamed(parser, "strings.Split"))
+	// the parser and the private helpers it delegates the splitting to
+	isSep := func(v ssa.Value) bool {
+		if s, ok := constString(v); ok {
+			return s == ":"
+		}
+		if k, ok := intConst(v); ok {
+			return k == ':'
+		}
+		return true
+	}
+	nSplit := len(callsDeep(parser, 1, "strings.Split"))
 	nIdx, nLast := 0, 0
-	for _, cs := range callsInNamed(parser, "strings.Index", "strings.IndexByte") {
-		if s, ok := constString(cs.Instr.Common().Args[1]); !ok || s == ":" {
+	for _, ci := range callsDeep(parser, 1, "strings.Index", "strings.IndexByte", "strings.IndexRune") {
+		if isSep(ci.Common().Args[1]) {
 			nIdx++
 		}
 	}
-	for _, cs := range callsInNamed(parser, "strings.LastIndex", "strings.LastIndexByte") {
-		if s, ok := constString(cs.Instr.Common().Args[1]); !ok || s == ":" {
+	for _, ci := range callsDeep(parser, 1, "strings.LastIndex", "strings.LastIndexByte") {
+		if isSep(ci.Common().Args[1]) {
 			nLast++
 		}
 	}
@@ -200,13 +247,31 @@ func checkC28(c *Ctx, r *Report) {
 	})
 	// formatter writes 1 for complete: a store of const 1 guarded by PeerInfo.Complete
 	ser1 := false
-	instrsOf(serFn, func(in ssa.Instruction) {
-		if phi, ok := in.(*ssa.Phi); ok {
-			for _, e := range phi.Edges {
-				if k, ok := e.(*ssa.Const); ok && k.Value != nil && k.Value.Kind() == constant.Int {
-					if n, _ := constant.Int64Val(k.Value); n == 1 {
-						ser1 = true
-					}
+	isOne := func(v ssa.Value) bool {
+		if k, ok := v.(*ssa.Const); ok && k.Value != nil {
+			if k.Value.Kind() == constant.Int {
+				n, _ := constant.Int64Val(k.Value)
+				return n == 1
+			}
+			if k.Value.Kind() == constant.String {
+				return constant.StringVal(k.Value) == "1"
+			}
+		}
+		return false
+	}
+	instrsDeep(serFn, 1, func(_ *ssa.Function, in ssa.Instruction) {
+		switch x := in.(type) {
+		case *ssa.Phi:
+			for _, e := range x.Edges {
+				if isOne(e) {
+					ser1 = true
+				}
+			}
+		case *ssa.Return:
+			// a helper that encodes the flag: `return 1` on the complete side
+			for _, rv := range x.Results {
+				if isOne(rv) && x.Parent() != serFn {
+					ser1 = true
 				}
 			}
 		}
